@@ -10,6 +10,7 @@ from collections import defaultdict
 from ..graph.graph import Node
 from ..graph.maskable_graph import MaskableGraph
 from ..arch.registers import Register
+from ..utils.collections import OrderedSet
 
 
 class InterferenceGraphNode(Node):
@@ -17,8 +18,10 @@ class InterferenceGraphNode(Node):
 
     def __init__(self, graph, vreg):
         super().__init__(graph)
-        self.temps = {vreg}
-        self.moves = set()
+        # Ordered sets: iteration order must not depend on object addresses,
+        # otherwise the generated code differs from process to process.
+        self.temps = OrderedSet([vreg])
+        self.moves = OrderedSet()
         self.reg = vreg if vreg.is_colored else None
         self.reg_class = type(vreg)
 
@@ -49,21 +52,40 @@ class InterferenceGraph(MaskableGraph):
 
     def calculate_interference(self, flowgraph):
         """Construct interference graph"""
+        # Liveness information is kept in plain sets of registers, which
+        # iterate in an order that depends on object addresses.  Nodes and
+        # edges are created in iteration order, and that order decides which
+        # node the allocator picks first.  To make the result reproducible,
+        # visit registers in the order of first occurrence in the code.
+        order = {}
+        for n in flowgraph:
+            for ins in n.instructions:
+                for reg in ins.defined_registers:
+                    order.setdefault(reg, len(order))
+                for reg in ins.used_registers:
+                    order.setdefault(reg, len(order))
+                for reg in ins.clobbers:
+                    order.setdefault(reg, len(order))
+
+        def in_order(registers):
+            return sorted(registers, key=order.__getitem__)
+
         for n in flowgraph:
             for ins in n.instructions:
                 # ins.live_out |= ins.
-                for tmp in ins.live_in:
+                for tmp in in_order(ins.live_in):
                     self.get_node(tmp)
 
                 # Live out and zero length defined variables:
-                live_and_def = ins.live_out | ins.kill
+                live_and_def = in_order(ins.live_out | ins.kill)
 
                 # Add interfering edges:
                 for tmp in live_and_def:
                     n1 = self.get_node(tmp)
-                    for tmp2 in live_and_def - {tmp}:
-                        n2 = self.get_node(tmp2)
-                        self.add_edge(n1, n2)
+                    for tmp2 in live_and_def:
+                        if tmp2 is not tmp:
+                            n2 = self.get_node(tmp2)
+                            self.add_edge(n1, n2)
 
                     # Add clobbered interfering edges:
                     for tmp2 in ins.clobbers:
@@ -106,7 +128,7 @@ class InterferenceGraph(MaskableGraph):
         """Combine n and m into n and return n"""
         # Copy associated moves and temporaries into n:
         n.temps |= m.temps
-        n.moves.update(m.moves)
+        n.moves |= m.moves
 
         # Update local temp map:
         for tmp in m.temps:
